@@ -1205,6 +1205,13 @@ func checkAug(s AugStruct) (vs []engine.Violation, outcome string) {
 			if !found {
 				mk("augmenting-node-not-in-augmenting-module:"+cls+":written-in-submodule", "node "+name+" added by the augment in submodule s of module a does not have namespace urn:a")
 			}
+			for _, l := range strings.Split(da, "\n") {
+				p := strings.SplitN(l, " args=", 2)[0]
+				if (strings.Contains(p, "/"+name+"/") || strings.Contains(p, "/{choice "+name+"}/")) && !strings.Contains(l, `ns="urn:a"`) {
+					mk("augmenting-node-not-in-augmenting-module:below:"+cls+":written-in-submodule", "a node below "+name+" is not in namespace urn:a: "+l)
+					break
+				}
+			}
 		}
 		rep := strings.NewReplacer(` module="a"`, ` module="b"`, ` module="s"`, ` module="b"`, ` submodule="s"`, ` submodule=""`, `ns="urn:a"`, `ns="urn:b"`, `ns=\"urn:a\"`, `ns=\"urn:b\"`, `{urn:a `, `{urn:b `)
 		da = rep.Replace(da)
@@ -1225,6 +1232,14 @@ func checkAug(s AugStruct) (vs []engine.Violation, outcome string) {
 			}
 			if !found {
 				mk("augmenting-node-not-in-augmenting-module:"+cls, "node "+name+" added by module b's augment does not have module b / namespace urn:b")
+			}
+			// ... and so does everything below it (the cases of a choice it brings, the nodes inside)
+			for _, l := range strings.Split(da, "\n") {
+				p := strings.SplitN(l, " args=", 2)[0]
+				if (strings.Contains(p, "/"+name+"/") || strings.Contains(p, "/{choice "+name+"}/")) && !strings.Contains(l, `ns="urn:b"`) {
+					mk("augmenting-node-not-in-augmenting-module:below:"+cls, "a node below "+name+" (added by module b's augment) is not in namespace urn:b: "+l)
+					break
+				}
 			}
 		}
 		var lines []string
